@@ -67,8 +67,8 @@ Print Assumptions C18_splitlines_spec.
    or CR, stream ending after the blank line / after the last line's terminator / right after the last line, and
    EVERY chunking of its UTF-8 encoding: one event per block, data lines joined by "\n", comments ignored, last
    event/id/retry wins — provided [guard]: no CR/LF inside a line and retry all digits (domain of the format),
-   none of U+000B, U+000C, U+001C-1E, U+0085, U+2028, U+2029 in a line [F18a], no field value starting with white
-   space [F18b].  [py_int] is any function that reads digit strings as Python's int() does. *)
+   none of U+000B, U+000C, U+001C-1E, U+0085, U+2028, U+2029 in a line [F18a].  (Field values may start with white
+   space: F18b is fixed, see C18_regression_F18b.)  [py_int] is any function that reads digit strings as Python's int() does. *)
 Theorem C18_partial : forall (py_int : str -> option Z),
   (forall ds, ds <> [] -> forallb is_digit ds = true -> py_int ds = Some (digits_val ds)) ->
   forall t k bs cs, guard bs = true ->
@@ -103,7 +103,7 @@ Proof. exact ndjson_roundtrip. Qed.
 Print Assumptions C18_ndjson_roundtrip.
 
 Theorem C18_refuted_F18a :
-  guard_dom bs_F18a = true /\ guard_F18a bs_F18a = false /\ guard_F18b bs_F18a = true /\
+  guard_dom bs_F18a = true /\ guard_F18a bs_F18a = false /\
   forall py_int, sse_of_lines py_int (splitlines (encode LF TFull bs_F18a)) <> map expected bs_F18a.
 Proof. exact refuted_F18a. Qed.
 Print Assumptions C18_refuted_F18a.
@@ -115,11 +115,14 @@ Theorem C18_refuted_F18a_ndjson :
 Proof. exact refuted_F18a_ndjson. Qed.
 Print Assumptions C18_refuted_F18a_ndjson.
 
-Theorem C18_refuted_F18b :
-  guard_dom bs_F18b = true /\ guard_F18a bs_F18b = true /\ guard_F18b bs_F18b = false /\
-  forall py_int, sse_of_lines py_int (splitlines (encode LF TFull bs_F18b)) <> map expected bs_F18b.
-Proof. exact refuted_F18b. Qed.
-Print Assumptions C18_refuted_F18b.
+(* regression for the fixed F18b: leading white space of a field value is payload *)
+Theorem C18_regression_F18b : forall py_int,
+  guard bs_F18b = true /\ guard bs_F18b_more = true /\
+  sse_of_lines py_int (splitlines (encode LF TFull bs_F18b)) = map expected bs_F18b /\
+  sse_of_lines py_int (splitlines (encode CRLF TNone bs_F18b_more)) = map expected bs_F18b_more /\
+  e_data (hd (expected []) (map expected bs_F18b)) = [32; 120].
+Proof. exact regression_F18b. Qed.
+Print Assumptions C18_regression_F18b.
 
 Theorem C18_guard_nonvacuous :
   (guard bs_ok = true /\ length bs_ok = 2%nat) /\
